@@ -33,12 +33,39 @@ CLAIMED = {
  "C13": ("Every reception history of bounded length (4-7 receptions drawn from two arbitrary symbolic values, symbolic pattern) per carrier (VPS, 8/30 format 1, WSS 625) is executed through the real decoder "
          "functions and compared with a history-based reference of the debounce rule (announce at the second consecutive identical reception / after three WSS repeats with good parity, only on change), "
          "event payloads against independent field extraction, NETWORK event and cache drop exactly on station change.", "0.3 / 5 C13"),
+
+ "C04": ("For each configuration on the runner's grid (service x sampling rate x pixel format x offset; tables derived at check time from the REAL reference transmitter vbi_raw_vbi_image and "
+         "validated natively on 260 payloads) the nominal waveform with ALL payload bits symbolic is decoded by the real vbi3_raw_decoder / bit slicer to exactly one record with the transmitted "
+         "service id, line and payload, the blank row gives none, nothing is written behind the records; line assignment (lines_containing_data, add_job_to_pattern, remove_job_from_pattern) "
+         "as inductive steps over arbitrary sampling parameters / pattern tables. Rates and offsets are a grid (stated), payloads are decided by the solver.", "5 C04"),
+ "C05": ("The real new and legacy bit slicers run on one line of ARBITRARY content held in an exact-size object for every template instantiation on a grid of (rate, offset, length) points: every access "
+         "inside the line and the payload buffer; an arithmetic lemma over symbolic sampling rate / samples per line / offset for every row of the real service table ties the search window to the line "
+         "at broadcast parameters; vbi3_raw_decoder_decode never writes beyond max_lines records for arbitrary pattern tables; _vbi_sampling_par_valid_log accepts only parameters under which the image holds all lines.", "5 C05"),
+ "C06": ("vbi_dvb_multiplex_sliced / vbi_dvb_mux_feed / _cor on frames of fully symbolic lines: an independent EN 300 472 / EN 301 775 / ISO 13818-1 parser written in the harness accepts the output and finds exactly the "
+         "accepted input lines in order (PES size multiple of 184 within bounds, header, PTS layout, data units never crossing a packet, stuffing, TS sync/PID/continuity), the REAL demultiplexer returns the same lines, "
+         "a rejected frame leaves output and multiplexer state unchanged, coroutine == callback interface, constructor and configuration contracts. Frame structure on a grid, contents symbolic.", "5 C06"),
+ "C07": ("wrap_around as a refinement step from every state satisfying its invariant (contents, counters symbolic); two-packet PES/TS streams with symbolic PTS and data units fed whole vs cut at a grid of positions give identical "
+         "callback sequences; coroutine == callback; fully symbolic garbage of stated lengths and one fully symbolic data unit from any frame state are memory safe and terminate; recovery: after each of 9 damage kinds the frames of the following intact packets are delivered exactly.", "5 C07"),
+ "C08": ("INV-STEP: one byte pair of every command class from an ARBITRARY channel state (all cells, cursor, mode, pen symbolic) is compared cell by cell with a reference EIA-608 / 47 CFR 15.119 step written in the harness; "
+         "SEQ skeletons from the reset state (pop-on, roll-up 2-4, paint-on, text, channels CC1-4/T1-4, field 1 doubling) with symbolic characters against the same reference at every point where content becomes visible, caption event "
+         "whenever the visible page changed; vbi_fetch_cc_page contract; field-2 routing; ITV separator step.", "5 C08"),
+ "C10": ("The real cache.c with an audit (every page on exactly the lists its state requires, counters and memory accounting exact, statistics cover the stored subpages) as invariant: INIT from vbi_cache_new, inductive steps for lookup, "
+         "reference, release (incl. zombies and network recycling) from arbitrary audited states of up to 3 pages, and SEQ-2/3 histories of puts and lookups from the empty cache against a reference map (most recent version, wildcard and masked lookups, subpage range).", "5 C10"),
+ "C15": ("IDL format A and PFC demultiplexers against reference SENDERS written from EN 300 708 (CRC by bit-serial reference for all register/byte values, dummy bytes, RI/CI/DL options, block pointers, fillers, structure headers): "
+         "symbolic user data, addresses and options on a grid of shapes; delivered bytes equal sent bytes, nothing for other addresses, corrupted packets never delivered, continuity gaps flagged (IDL) / damaged block only discarded (PFC); PFC step invariant from every state.", "5 C15"),
+ "C16": ("Write layer: an arbitrary exporter (symbolic writes) through vbi_export_mem with every buffer size 0..needed+1 (exact-size object), vbi_export_alloc, stdio and file targets: same bytes, size reported, nothing past the buffer; "
+         "vbi_print_page_region on symbolic cells: bytes written <= size, exact table-mode content; vbi_draw_vt_page_region / vbi_draw_cc_page_region on exact-size canvases with symbolic stride, position and cells: nothing outside the rectangle, unsupported formats draw nothing. "
+         "PNG/XPM/PPM whole-page identity and real iconv are outside.", "5 C16"),
+ "C17": ("PARTLY: the walk/stop/termination logic of vbi_search_next / search_page_fwd / search_page_rev with an abstract matcher over a symbolic universe of pages (start page, direction per call, cache membership per call symbolic) against an order oracle, "
+         "and literal pattern escaping. The regular expression engine (ure.c), haystack construction and highlighting are outside (no verdict / not encodable - see DESIGN).", "5 C17"),
+ "C19": ("Message framing for arbitrary client byte streams in arbitrary chunks; one step of the daemon's event loop from every connection I/O state; check_msg + take_message on a fully symbolic message in every connection state from an arbitrary daemon state satisfying a stated invariant "
+         "(all safety checks and assert()s of the real proxyd.c / proxy-msg.c, rejected message changes nothing else); token exclusivity as inductive step over 3 clients for every token message and the scheduler timer; disconnect from every state releases queue references and the token.", "5 C19"),
 }
 NA = {
  "C20": "quantifier is thread schedules: goto-instrument --race-check crashes on struct-member shared state and cbmc's thread support aborts ('pointer handling for concurrency is unsound') on the real functions; "
         "no other engine is installed; lock discipline is checked sequentially inside other properties' harnesses (DESIGN section 5 C20)",
 }
-READY = ["C11", "C12", "C14"]   # properties whose quick check is known to pass on the unchanged tree
+READY = ["C02", "C04", "C05", "C06", "C07", "C08", "C10", "C11", "C12", "C13", "C14", "C15", "C16", "C17", "C19"]   # properties whose quick check is known to pass on the unchanged tree
 
 def main():
     props = [json.loads(l)["id"] for l in open(os.path.join(HERE, "properties.jsonl"))]
@@ -60,7 +87,7 @@ def main():
     na = []
     for pid in props:
         if not (pid in CLAIMED and pid in READY):
-            na.append({"property_id": pid, "reason": NA.get(pid, "no check built yet in this round; see DESIGN.md section 5 for the planned obligations")})
+            na.append({"property_id": pid, "reason": NA.get(pid, "check exists in /verif but its quick tier is not yet decisive inside the budget on the unchanged tree (being repaired; see DESIGN.md section 0.3)")})
     m = {
         "version": 1,
         "setup_cmd": "python3 tools/selfcheck.py",
